@@ -105,7 +105,11 @@ def build(w, s):
     o.hydraulic.required_pressure = s["preq"]
     o.hydraulic.pressure_exponent = s["pexp"][0] / s["pexp"][1]
     for name, mult in s["patterns"].items():
-        wn.add_pattern(name, list(mult))
+        if name in s.get("nowrap", []):
+            from wntr.network.elements import Pattern
+            wn.add_pattern(name, Pattern(name, list(mult), time_options=wn.options.time, wrap=False))
+        else:
+            wn.add_pattern(name, list(mult))
     for n in s["nodes"]:
         if n["type"] == "R":
             wn.add_reservoir(n["name"], base_head=n["head"], head_pattern=n["pat"] or None)
@@ -261,6 +265,7 @@ def encode_trace(s, rows, props):
     sc = enc({k: v for k, v in s.items() if k not in ("rules",)})
     sc["props"] = list(props)
     sc["interp"] = bool(s.get("interp", False))
+    sc["nowrap"] = list(s.get("nowrap", []))
     for nd, raw in zip(sc["nodes"], s["nodes"]):
         if raw["type"] == "J":
             nd["pctl"] = [{"thr": int(pc["thr"]), "val": common.num(float(pc["val"]))} for pc in raw.get("pctl", [])]
